@@ -723,6 +723,15 @@ impl Machine for H2Peer {
         }
         self.dead = true;
     }
+    fn runs(&self) -> Vec<u64> {
+        let mut v: Vec<u64> = self.streams.iter().map(|s| s.run).collect();
+        if let Some(p) = self.plan.as_ref() {
+            v.push(p.run);
+        }
+        v.sort_unstable();
+        v.dedup();
+        v
+    }
     fn wants_close(&mut self) -> CloseAction {
         std::mem::replace(&mut self.closing, CloseAction::None)
     }
